@@ -53,11 +53,13 @@ func Execute(spec RunSpec) (res *Result, reusable bool) {
 	s.KeepTrace = spec.Keep
 	x := &Ctx{Prop: spec.Prop, Tier: spec.Tier, Tape: tape, Sim: s, Res: res, Race: spec.Race}
 	ResetGlobals()
+	schedPanic := false
 	func() {
 		defer func() {
 			if p := recover(); p != nil {
 				// a panic on the scheduler goroutine: harness code or library code called sequentially
 				s.Violate("panic-on-scheduler", "panic outside any task: %v\n%s", p, trimStack(string(debug.Stack())))
+				schedPanic = true
 			}
 		}()
 		info.Run(x)
@@ -78,6 +80,20 @@ func Execute(spec RunSpec) (res *Result, reusable bool) {
 			s.Violate("blocked-on-channel", "the running task blocked for real on a channel operation: %s", where)
 		} else {
 			s.Violate("infra-stall", "watchdog: running task stuck (%s) %s", class, where)
+		}
+	}
+	if s.Abnormal == "" {
+		// signals every scenario shares: a pooled object used after its release, and simulated I/O of one
+		// request touched from another request's goroutine (a compressor shared between two responses)
+		seen := map[string]bool{}
+		for _, e := range s.Events() {
+			switch e.Kind {
+			case "foreign-writer-use", "foreign-body-use":
+				if !seen[e.Kind] {
+					seen[e.Kind] = true
+					s.Violate(e.Kind, "while serving request %d, task %d wrote to / read from the simulated I/O of a request served by task %d (%s)", e.Req, e.Task, e.N, e.S)
+				}
+			}
 		}
 	}
 	res.Violations = s.Viol
@@ -134,7 +150,7 @@ func Execute(spec RunSpec) (res *Result, reusable bool) {
 		fmt.Fprintf(&sb, "%s=%d|", k, res.Counts[k])
 	}
 	res.LogHash = sim.HashString(sb.String())
-	return res, s.Abnormal == ""
+	return res, s.Abnormal == "" && !schedPanic
 }
 
 func kindName(k uint8) string {
